@@ -116,7 +116,7 @@ AllCore == {Build(rt, r) : rt \in CoreRoutes, r \in Runs}
 Small(S) == {X \in SUBSET S : Cardinality(X) <= MaxSegs}
 
 -----------------------------------------------------------------------------
-VARIABLES phase,   \* "idle" -> "graph" -> "search" -> "filter" -> "done"
+VARIABLES phase,   \* "idle" -> "pair" -> "graph" -> "search" -> "filter" -> "done"
           q,       \* the query: src, dst, ups, cores, downs (sequences), all (findAllIdentical)
           edges,   \* the DMG: set of [from, to, pc, w]
           sols,    \* sequence of solutions (each a sequence of edges), sorted
@@ -127,13 +127,16 @@ vars == <<phase, q, edges, sols, result, defs>>
 NoQ == [src |-> "", dst |-> "", ups |-> <<>>, cores |-> <<>>, downs |-> <<>>, all |-> FALSE]
 Init == phase = "idle" /\ q = NoQ /\ edges = {} /\ sols = <<>> /\ result = <<>> /\ defs = <<>>
 
-Query == /\ phase = "idle"
-         /\ \E src \in ASes : \E dst \in ASes \ {src} :
-            \E U \in Small({s \in AllDown : LastIA(s) = src}) :
-            \E D \in Small({s \in AllDown : LastIA(s) = dst}) :
+\* the query is chosen in two steps so that TLC's workers share the enumeration of segment sets
+Pick == /\ phase = "idle"
+        /\ \E src \in ASes : \E dst \in ASes \ {src} : q' = [NoQ EXCEPT !.src = src, !.dst = dst]
+        /\ phase' = "pair" /\ UNCHANGED <<edges, sols, result, defs>>
+
+Query == /\ phase = "pair"
+         /\ \E U \in Small({s \in AllDown : LastIA(s) = q.src}) :
+            \E D \in Small({s \in AllDown : LastIA(s) = q.dst}) :
             \E C \in Small(AllCore) :
-              /\ q' = [src |-> src, dst |-> dst, ups |-> SetToSeq(U), cores |-> SetToSeq(C),
-                       downs |-> SetToSeq(D), all |-> FALSE]
+              /\ q' = [q EXCEPT !.ups = SetToSeq(U), !.cores = SetToSeq(C), !.downs = SetToSeq(D)]
               /\ defs' = [ch \in PathChoices(q'.src, q'.dst, q'.ups, q'.cores, q'.downs) |->
                              PathOf(ch, q'.ups, q'.cores, q'.downs)]
          /\ phase' = "graph" /\ UNCHANGED <<edges, sols, result>>
@@ -193,7 +196,7 @@ Filter == /\ phase = "filter"
                 /\ q' = [q EXCEPT !.all = all]
           /\ phase' = "done" /\ UNCHANGED <<edges, sols, defs>>
 
-Next == Query \/ NewDMG \/ GetPaths \/ Filter
+Next == Pick \/ Query \/ NewDMG \/ GetPaths \/ Filter
 Spec == Init /\ [][Next]_vars
 
 -----------------------------------------------------------------------------
@@ -261,5 +264,5 @@ ResultOK ==
       /\ q.all => {result[j].ch : j \in 1..Len(result)} = GoodDef
 
 \* vacuity guards (checked with their negation as invariant in a separate cfg / by coverage)
-TypeOK == phase \in {"idle", "graph", "search", "filter", "done"}
+TypeOK == phase \in {"idle", "pair", "graph", "search", "filter", "done"}
 =============================================================================
